@@ -400,6 +400,21 @@ def _model_group(ctx, spec, g, path, ct, reqs, pending, case):
             pending.append((dict(case, what='coordinates', annotation=k),
                             ('ok', [_tok(row) for row in np.asarray(a)]) if stc == 'ok' else ('err', _kind(a))))
         if 'MeasurementsSequence' in g:
+            items = []
+            for j, ms in enumerate(g.MeasurementsSequence):
+                it = ms.MeasurementValuesSequence[0]
+                items.append({'name': spec['meas'][j]['name'] if j < len(spec['meas']) else 99,
+                              'values': _tok(np.frombuffer(_buf(it.FloatingPointValues), '<f4')),
+                              'indices': np.frombuffer(_buf(it.AnnotationIndexList), '<i4').tolist() if 'AnnotationIndexList' in it else None})
+            for name in [None] + list(range(len(MEAS_NAMES))):
+                reqs.append(('getMeasurements', {'items': items, 'n': n, 'name': name}))
+                stm, res = _try(g.get_measurements, None if name is None else _code(MEAS_NAMES[name]))
+                if stm == 'ok':
+                    cols = np.asarray(res[1]).T
+                    impl = ('ok', [[None if np.isnan(x) else t for x, t in zip(col, _tok(col))] for col in cols])
+                else:
+                    impl = ('err', _kind(res))
+                pending.append((dict(case, what='getMeasurements', name=name), impl))
             for j, ms in enumerate(g.MeasurementsSequence):
                 it = ms.MeasurementValuesSequence[0]
                 reqs.append(('decodeMeas', {'values': _tok(np.frombuffer(_buf(it.FloatingPointValues), '<f4')),
@@ -529,6 +544,45 @@ def _object(ctx, idx, reqs, pending, stream='obj'):
     ng = r.choice([1, 1, 2, 2, 3, 4])
     specs = [_gen_group(ctx, stream, idx, k + 1, dim) for k in range(ng)]
     base = {'what': 'object', 'stream': stream, 'idx': idx}
+    _run_object(ctx, specs, ct, base, idx, r, reqs, pending, stream)
+
+
+GRID = [(g, dz, dt, n, prof) for g in GTYPES for dz in ('2', '3c', '3p', '3v') for dt in ('f4', 'f8', 'i4', 'i8', 'u2', 'mixed')
+        for n in (1, 2, 3) for prof in (('min',) if g in FIXED else ('min', 'mixed'))]
+
+
+def _grid_spec(ctx, gidx):
+    gtype, dz, dtype, n, prof = GRID[gidx]
+    r = ctx.rng('grid', gidx)
+    nr = ctx.np_rng('grid', gidx)
+    dim = 2 if dz == '2' else 3
+    zclass = {'2': '-', '3c': 'const', '3p': 'per-annotation', '3v': 'vary'}[dz]
+    lo = MIN_PTS[gtype]
+    counts = [FIXED[gtype]] * n if gtype in FIXED else ([lo] * n if prof == 'min' else [lo + 2, lo, lo + 1][:n])
+    coords, zclass = _gen_coords(r, nr, gtype, counts, dim, zclass, dtype)
+    spec = {'number': 1, 'uid': f'1.2.826.0.1.3680043.10.511.4.{gidx}', 'label': 'grid', 'gtype': gtype, 'dim': dim, 'zclass': zclass,
+            'dtype': dtype, 'counts': counts, 'coords': coords, 'category': 0, 'ptype': 2, 'algorithm_type': 'MANUAL', 'alg': None,
+            'meas': _gen_meas(r, nr, n) if gidx % 3 == 0 else [], 'description': None}
+    return spec, ('2D' if dim == 2 else '3D')
+
+
+def _grid(ctx, reqs, pending, only=None):
+    """systematic sub-domain: every graphic type x {2-D, 3-D const / per-annotation / varying z} x dtype x n in 1..3 x count profile"""
+    for gidx in range(len(GRID)):
+        if only is not None and gidx != only:
+            continue
+        spec, ct = _grid_spec(ctx, gidx)
+        _run_object(ctx, [spec], ct, {'what': 'grid', 'gidx': gidx}, gidx, ctx.rng('grid-o', gidx), reqs, pending, 'grid')
+    if only is None:
+        ctx.exhaustive.append(f'{len(GRID)} single-group objects: all graphic types x (2-D, 3-D shared / per-annotation / varying z) x '
+                              '(float32, float64, int32, int64, uint16, mixed) x 1..3 annotations x (minimal, mixed) point counts')
+
+
+def _run_object(ctx, specs, ct, base, idx, r, reqs, pending, stream):
+    import pydicom
+    from pydicom.uid import ExplicitVRLittleEndian, ImplicitVRLittleEndian
+    from highdicom.ann import AnnotationGroup, MicroscopyBulkSimpleAnnotations, annread
+    ng = len(specs)
     groups = []
     for s in specs:
         st, g = _try(_build_group, s)
@@ -791,6 +845,7 @@ def _compare(ctx, pending, answers):
 def run(ctx):
     import hd_env  # noqa: F401
     reqs, pending = [], []
+    _grid(ctx, reqs, pending)
     for idx in range(ctx.n(150, 2000)):
         _object(ctx, idx, reqs, pending)
     for idx in range(ctx.n(320, 3200)):
@@ -807,4 +862,6 @@ def replay(ctx, case):
         _object(sub, case['idx'], [], [], stream=case.get('stream', 'obj'))
     elif case.get('what') == 'malformed':
         _malformed(sub, case['idx'], [], [])
+    elif case.get('what') == 'grid':
+        _grid(sub, [], [], only=case['gidx'])
     return sub.failures[:3] or None
